@@ -26,11 +26,8 @@
 (***************************************************************************)
 EXTENDS Naturals, FiniteSets, Sequences, TLC
 
-CONSTANTS NP,   \* number of pipelines in the series
-          K,    \* maximal number of items per source
-          T     \* tasks per pipeline
+CONSTANTS K     \* maximal number of items per source (domain bound; kk[p] is the actual number)
 
-Pipes == 1..NP
 Items == 1..K
 
 \* exception classes: one per exit-status class of Application.ERROR_CODE_MAP, an expected unmapped one, a crash
@@ -40,6 +37,7 @@ Code(x) == IF x = "S" THEN 8 ELSE IF x = "P" THEN 7 ELSE IF x = "N" THEN 4 ELSE 
 Merge(a, b) == IF a = 0 THEN b ELSE IF b = 0 THEN a ELSE IF a < b THEN a ELSE b
 
 VARIABLES
+  np, tt,        \* configuration (never changes): number of pipelines in the series, tasks per pipeline
   skp, reg, kk,  \* configuration (never changes): skippable flag, registered in concurrency_pipelines, #items
   mstate,        \* application state as implied by the observable events: ready/running/stopping/stopped
   runRuleOK,     \* run() starts iff the application was ready (second run() = RuntimeError)
@@ -66,7 +64,10 @@ VARIABLES
   concOK,        \* after every setter call: registered pipelines = new value, others unchanged
   boundOK        \* at every first-task begin: items in flight in p <= effc[p]
 
-cfgvars == <<skp, reg, kk>>
+cfgvars == <<np, tt, skp, reg, kk>>
+
+Pipes == 1..np
+T == tt
 obsvars == <<mstate, runRuleOK, phase, orderOK, inPhaseOK, st, itemOK, taken, stopAcc, stopAt, lateTake, lateBegin,
              lateSkip, raisedX, mustFail, afterFail, uecAcc, crashSeen, returned, retcode, hung, effc, concOK, boundOK>>
 
